@@ -91,20 +91,24 @@ for name, op in CMP.items():
                        "scalar": dict(ensures=["result == (self.value %s other)" % op])})
 
 # static helpers
-contract(F, "Payload.get", cases=[dict(payload="Payload"), dict(payload="U"), dict(payload="int"),
-                                   dict(payload="none"), dict(payload="opt[int]")],
-         case_names=["box", "scalar", "int", "none", "optint"],
-         returns=["U", "U", "int", "none", "opt[int]"], modifies=[],
+contract(F, "Payload.get", cases=[dict(payload="Payload"), dict(payload="int"), dict(payload="none"),
+                                   dict(payload="opt[int]"), dict(payload="U")],
+         case_names=["box", "int", "none", "optint", "scalar"],
+         returns=["U", "int", "none", "opt[int]", "U"], modifies=[],
          per_case={"box": dict(ensures=["result == payload.value"]),
                    "scalar": dict(ensures=["result == payload"]),
                    "int": dict(ensures=["result == payload"]),
                    "optint": dict(ensures=["result == payload"])})
 
-contract(F, "Payload.maybe_box", cases=[dict(value="U"), dict(value="Payload")], case_names=["scalar", "box"],
-         returns="Payload", modifies=[],
+contract(F, "Payload.maybe_box", cases=[dict(value="U"), dict(value="Payload"), dict(value="Fiber"), dict(value="opt[U]")],
+         case_names=["scalar", "box", "fiber", "optscalar"],
+         returns=["Payload", "Payload", "Fiber", "opt[Payload]"], modifies=[],
          ensures={"C01": []},
          per_case={"scalar": dict(ensures=["fresh(result)", "result.value == value"]),
-                   "box": dict(ensures=["result is value", "value.value == old(value.value)"])})
+                   "box": dict(ensures=["result is value", "value.value == old(value.value)"]),
+                   "fiber": dict(ensures=["result is value"]),
+                   "optscalar": dict(ensures=["isnone(result) == isnone(value)",
+                                              "implies(not isnone(value), fresh(val(result)) and val(result).value == val(value))"])})
 
 contract(F, "Payload.isEmpty", cases=[dict(p="Payload", default="U"), dict(p="Payload")],
          case_names=["box", "box_default0"],
@@ -112,3 +116,9 @@ contract(F, "Payload.isEmpty", cases=[dict(p="Payload", default="U"), dict(p="Pa
          ensures={"C12": []},
          per_case={"box": dict(ensures=["result == (p.value == default)"]),
                    "box_default0": dict(ensures=["result == (p.value == 0)"])})
+
+contract(F, "Payload.is_payload", cases=[dict(payload="Payload|Fiber"), dict(payload="Payload"), dict(payload="Fiber"), dict(payload="U")],
+         case_names=["either", "box", "fiber", "scalar"], returns="bool", modifies=[],
+         per_case={"either": dict(ensures=["result"]), "box": dict(ensures=["result"]), "fiber": dict(ensures=["result"]),
+                   "scalar": dict(ensures=["not result"])},
+         verify=False, tier="T", note="imports Fiber locally; isinstance against (Payload, Fiber)")
